@@ -3,6 +3,8 @@
 import json, os, subprocess
 V = os.path.dirname(os.path.dirname(os.path.abspath(__file__)))
 
+CORE_NOTE = "Trusted: TLC/SANY/Json; the renderer and AST encoder (self-checked on every case by re-encoding the real parser's tree); the host probe functions. Bounds: nesting depth 2 exhaustive (3 sampled / exhaustive in thorough), small value pools, fuel 40; seeded random programs to depth 4-5. Points the statement leaves open are marked open by the specification and not compared."
+
 CHECKS = {
  "C12": dict(level="model_checking", design="5 (C12), 3.6",
    technique="TLC exhaustive model checking of spec/AnkoEnv.tla (bounded) + transition-cover replay into package env + TLC trace validation of recorded random histories",
@@ -16,9 +18,31 @@ CHECKS = {
         "and on the real code (every schedule of every program tuple executed under a deterministic gate; each distinct outcome validated by TLC against the sequential specification; stuck schedules are deadlocks). "
         "Memory-level races are delegated to the race detector on real-scheduler runs whose outcomes are validated the same way.",
    note="Trusted: Go RWMutex semantics as documented; the overlay rewrite intercepts every sync.RWMutex/Mutex field of package env. Bounds: 2x2 calls over 9 call instances x 2 initial tables exhaustive (quick); 3x1 exhaustive, 2x3 and 3x2 sampled (thorough). Read-only parent as the property states."),
+
+ "C04": dict(level="model_checking", design="5 (C04), 3.4",
+   technique="TLC evaluation of the executable reference semantics spec/AnkoSem.tla over an exhaustively enumerated bounded program family + replay of every program on the real parser/VM",
+   text="AnkoSem defines lexical scoping (nearest binding, assignment vs var, block/loop/function/module scopes, closures by reference, fresh scope per invocation) independently of the interpreter; TLC computes the demanded reads and final bindings for every program of the bounded family and for seeded random programs, and the real interpreter must reproduce them exactly, on every exit path.",
+   note=CORE_NOTE),
+ "C07": dict(level="model_checking", design="5 (C07), 3.4",
+   technique="TLC evaluation of spec/AnkoSem.tla (left-to-right, exactly-once, short-circuit) over all operand-bearing forms x failing-operand positions + replay on the real VM comparing the ordered probe log",
+   text="For every call path, literal, operator and short-circuit form with probe operands, and for every position of a failing operand, the ordered probe log demanded by the reference semantics is compared with the log written by the real interpreter.",
+   note=CORE_NOTE),
+ "C08": dict(level="model_checking", design="5 (C08), 3.4",
+   technique="TLC evaluation of spec/AnkoSem.tla over all nestings (depth 2, thorough 3) of 13 control constructs x 8 control leaves, truthiness/switch/for-in families and seeded random programs + replay on the real parser/VM",
+   text="The reference semantics fixes which branch runs, how often loop bodies run, what break/continue/return bind to and what a function yields; every program of the bounded grammar is replayed and result, probe log and bindings compared.",
+   note=CORE_NOTE),
+ "C09": dict(level="model_checking", design="5 (C09), 3.4",
+   technique="TLC evaluation of spec/AnkoSem.tla (throw/try/catch/finally, per-invocation LIFO defers) over terminator x defer-position families and templates + replay on the real VM",
+   text="Defers (count, LIFO order, argument timing, result preservation, error precedence) and error propagation to the nearest try are defined by the reference semantics and compared on every program of the families on the real interpreter.",
+   note=CORE_NOTE),
+ "C14": dict(level="model_checking", design="5 (C14)",
+   technique="solo outcome from TLC/AnkoSem; one parsed tree run sequentially and concurrently on fresh environments with a structural tree digest before/after, run k = run 1 = solo, package-table digest, race detector",
+   text="Non-interference is checked on every program of the language-core corpora and a raw-source corpus: the tree digest (including the run-time slots inside call and literal nodes) never changes, every repeated/concurrent run equals the first and the specification's solo outcome, import copies leave the process-wide tables unchanged, and the race detector stays silent.",
+   note=CORE_NOTE + " The race detector observes only the interleavings that occur."),
 }
 
-NOT_YET = "check not built yet in this round (planned in DESIGN.md section 5); not claimed until its machinery is sound"
+CORE_NOTE = "Trusted: TLC/SANY/Json; the renderer and AST encoder (self-checked on every case by re-encoding the real parser's tree); the host probe functions. Bounds: nesting depth 2 exhaustive (3 sampled / exhaustive in thorough), small value pools, fuel 40; seeded random programs to depth 4-5. Points the statement leaves open are marked open by the specification and not compared."
+NOT_YET0 = "check not built yet in this round (planned in DESIGN.md section 5); not claimed until its machinery is sound"
 
 def main():
     props = [json.loads(l) for l in open(os.path.join(V, "properties.jsonl"))]
@@ -47,7 +71,7 @@ def main():
               "level_claimed": {"category": c["level"], "text": c["text"], "design_ref": "DESIGN.md section " + c["design"]},
               "level_note": c["note"], "technique": c["technique"]})
         else:
-            m["not_applicable"].append({"property_id": i, "reason": NOT_YET})
+            m["not_applicable"].append({"property_id": i, "reason": NOT_YET0})
     json.dump(m, open(os.path.join(V, "MANIFEST.json"), "w"), indent=1)
     print("MANIFEST.json: %d checks, %d not claimed" % (len(m["checks"]), len(m["not_applicable"])))
 
